@@ -21,7 +21,10 @@ type History struct {
 	Policy string         `json:"policy"`
 	Limits map[string]any `json:"limits"`
 	Probe  string         `json:"probe"` // "", "none", "passive", "all": queries issued after every step
-	Ops    []world.Op     `json:"ops"`
+	// Malformed: after every state-changing step, send this many structurally mutated requests
+	// (seeded sample of the grammar) through the HTTP handler
+	Malformed int        `json:"malformed"`
+	Ops       []world.Op `json:"ops"`
 }
 
 func init() { commands["hist"] = cmdHist }
@@ -51,7 +54,7 @@ func runHistory(h History, scratch string, seed int64) ([]world.Event, error) {
 	os.RemoveAll(dir)
 	defer os.RemoveAll(dir)
 	w, err := world.New(world.Options{Dir: dir, FeePpk: h.Fee, MPP: h.MPP, FeeReserve: h.Policy,
-		Limits: limitsOf(h.Limits), Seed: seed + int64(h.ID)})
+		Limits: limitsOf(h.Limits), Seed: seed + int64(h.ID), WithServer: h.Malformed > 0})
 	if err != nil {
 		return nil, err
 	}
@@ -65,6 +68,9 @@ func runHistory(h History, scratch string, seed int64) ([]world.Event, error) {
 			continue
 		}
 		probe(w, h.Probe)
+		if h.Malformed > 0 {
+			w.Exec(world.Op{Op: "malformed", Amt: uint64(h.Malformed)})
+		}
 	}
 	return w.Events, nil
 }
